@@ -195,7 +195,8 @@ func (c *c07v) intercept(from, to string, e *wire.Envelope) (*wire.Envelope, boo
 	cr.armed = false
 	c.mu.Unlock()
 	peer, hch := c.parentOf(cr.who)
-	hist := c.t.H.Rec.EnabledOf(hch.ID())
+	// predecessor = the sender's own current state of the parent (see c07.go)
+	hist := peer.Rec.EnabledOf(hch.ID())
 	if len(hist) == 0 {
 		return e, true
 	}
@@ -372,6 +373,15 @@ func (c *c07v) settle() bool {
 	c.mu.Unlock()
 	if cr == nil || !cr.fired {
 		return true
+	}
+	held := false
+	benc := gen.EncodeState(cr.before)
+	for _, e := range t.H.Rec.EnabledOf(cr.parent) {
+		held = held || bytes.Equal(e.Enc, benc)
+	}
+	if !held {
+		s.Count("probe.predecessor_not_held_by_H", 1)
+		return false
 	}
 	enc := gen.EncodeState(cr.upd.State)
 	enabled := false
